@@ -230,9 +230,9 @@ public:
         auto bPt = int(b.lower());
         auto i = boost::numeric::nth_root(a.i, bPt);
 
-        // We can only take multiples-of-two nth roots on negative values
+        // We can only take odd nth roots on negative values
         const bool u = a.maybe_nan || b.maybe_nan ||
-            (a.lower() <= 0.0f && !(bPt & 2));
+            (a.lower() <= 0.0f && !(bPt & 1));
         return Interval(i, u);
     }
 
